@@ -41,7 +41,28 @@ COQ = os.path.join(VERIF, "coq")
 THEORIES = os.path.join(COQ, "theories")
 REPO = os.environ.get("DEEPDIFF_REPO", "/repo")
 GUARD = "SEPERMAN_DEEPDIFF_VERIF"
-NCPU = min(16, os.cpu_count() or 4)
+def _ncpu():
+    """worker count for coqc shards / fork pools: all cores (<= 16) on an idle box; when the box is already overloaded
+    (several checks or builders at once) fewer workers finish sooner than 16 more competing ones.  VERIF_NCPU overrides."""
+    n = min(16, os.cpu_count() or 4)
+    if os.environ.get("VERIF_NCPU"):
+        return max(1, int(os.environ["VERIF_NCPU"]))
+    try:
+        load = os.getloadavg()[0]
+    except OSError:
+        return n
+    if load > 1.5 * n:
+        n = max(3, min(n, int(n * n / load)))
+    try:  # a coqc on a cases shard needs about 0.5-0.8 GB: do not start more than the free memory carries
+        for line in open("/proc/meminfo"):
+            if line.startswith("MemAvailable:"):
+                n = max(2, min(n, int(int(line.split()[1]) / 1048576 / 0.9)))
+    except (OSError, ValueError):
+        pass
+    return n
+
+
+NCPU = _ncpu()
 
 KERNEL_TRUST = [
     "Coq 8.16.1 kernel (coqc, full .vo build; no native_compute; vm_compute used only for kernel-checked conversions in _refuted witnesses / finite lemmas and for evaluating the model in generated cases files)",
@@ -300,8 +321,14 @@ class Ctx:
             return sh(["coqc", "-Q", THEORIES, "DD", fn], timeout=timeout, cwd=self.scratch)
 
         bad = []
-        with ThreadPoolExecutor(max_workers=NCPU) as ex:
+        with ThreadPoolExecutor(max_workers=min(NCPU, _ncpu())) as ex:
             results = list(ex.map(one, files))
+        # a coqc that was killed (out-of-memory killer / a signal on an overloaded box) says nothing about the model:
+        # such shards - non-zero exit without any Coq "Error" in the output - are re-run once, one at a time
+        for k, (rc, out) in enumerate(results):
+            if rc != 0 and "Error" not in out:
+                self.count("coqc_shards_rerun_after_kill")
+                results[k] = one(files[k])
         for k, (rc, out) in enumerate(results):
             m = re.search(r'"BEGIN\n(.*)END"', out, re.S)
             if rc != 0 or not m:
@@ -588,6 +615,9 @@ def source_tie_step(ctx):
             continue
         for e in tie.get("equiv", []):
             src = os.path.join(SRCTIE, e + ".v")
+            if not os.path.exists(src):
+                rec.update(status="equivalence-proof-broken", detail="missing file coq/srctie/%s.v" % e)
+                break
             etext = open(src).read()
             hb += _hygiene_text(e + ".v", etext)
             dst = os.path.join(gen_dir, e + ".v")
@@ -739,7 +769,10 @@ def main(argv):
         if not a.no_proof:
             proof_step(ctx, ctx.mod.THEOREM_FILE)
         if not a.no_proof or os.environ.get("VERIF_SOURCE_TIE") == "1":
-            source_tie_step(ctx)
+            try:
+                source_tie_step(ctx)
+            except Exception as e:  # the second tie is optional: its machinery failing is recorded, never an alarm
+                ctx.source_ties["_step"] = {"status": "machinery-error", "detail": repr(e)[:800]}
         if a.replay:
             with open(a.replay) as f:
                 ctx.mod.replay(ctx, json.load(f))
